@@ -98,9 +98,18 @@ def oracle(chk, n):
         v = ac.slope_variance_from_r0(r0, lam, d)
         nfr = rng.choice([2, 4, 10])
         base = numpy.array([1.0, -1.0] * (nfr // 2))              # population variance exactly 1
-        slopes = numpy.sqrt(v) * numpy.broadcast_to(base, (2, rng.randint(1, 4), nfr)).copy()
+        nsub = rng.randint(1, 4)
+        slopes = numpy.sqrt(v) * numpy.broadcast_to(base, (2, nsub, nfr)).copy()
+        # static mean slopes that differ between sub-apertures (defocus, reference offsets) do not change the temporal
+        # variance of any sub-aperture, so they must not change the recovered r0
+        offs = rng.choice(["none", "common", "per-subap"])
+        chk.count("slopes-offset:" + offs)
+        if offs == "common":
+            slopes = slopes + 3.7 * numpy.sqrt(v)
+        elif offs == "per-subap":
+            slopes = slopes + numpy.sqrt(v) * numpy.array([[[rng.uniform(-5, 5)] for _ in range(nsub)] for _ in range(2)])
         got = ac.r0_from_slopes(slopes, lam, d)
-        if not rel(got, r0):
+        if not abs(got - r0) <= 1e-7 * r0:
             bad("inverse:r0_from_slopes∘slope_variance_from_r0", "r0_from_slopes(slopes of variance slope_variance_from_r0(r0))=%r ≠ r0=%r"
                 % (got, r0), r0=r0, wavelength=lam, subapDiam=d, nframes=nfr)
         # photometry
